@@ -142,6 +142,15 @@ def h_format(cx, sig, emin, emax):
             cx.expect(fs == base, 'flag %r leaves a negative value unchanged' % flag, '%r vs %r' % (fs, base))
         else:
             cx.expect(fs == flag + base, 'flag %r only prepends the character' % flag, '%r vs %r' % (fs, base))
+    if sig == 2:
+        # two significant digits are the default: a flag without a number only adds the leading character to the default form
+        for flag in ('+', ' '):
+            try:
+                fs = format(o, flag)
+            except ValueError as e:
+                cx.fail('flag %r without a significance is rejected' % flag, '%s: %s' % (type(e).__name__, e))
+                continue
+            cx.expect(fs == format(o, flag + '2'), 'flag %r alone = flag with the default significance' % flag, '%r' % fs)
     cx.expect(repr(o) == 'Obs[' + str(o) + ']', 'repr')
     # the string is accepted as a prior with exactly the parsed value and error
     if cx.mode == 'conc':
@@ -275,7 +284,7 @@ META = dict(
                 'of the last printed digit, the error carries the requested number of significant digits, flags only prepend their character, CObs prints both parts, prior observables carry exactly the parsed '
                 'value and error; comparisons, the n-sigma test and Corr.plottable use exactly value and dvalue.',
     bounds='errors with floor(log10 d) in [-6,5] (thorough [-8,8]) and any real value; significance 1..3 (thorough 1..6); flags "", "+", " "; 8 concrete prior strings.',
-    outside=['libm log10 near powers of ten, binary rounding of dvalue*10^k and double rounding inside printf (the claim is over the reals)', 'bare flags "+" / " " without a significance (the statement does not fix them)'],
+    outside=['libm log10 near powers of ten, binary rounding of dvalue*10^k and double rounding inside printf (the claim is over the reals)'],
     stubs=['format(x, ".kf") -> decimal rounding contract with token digits', 'float(str) on token strings', 'floor(log10(d)) -> case split'],
     assumptions=['error positive and inside the exponent range'],
 )
